@@ -271,9 +271,11 @@ Lemma parse_results_concat ds : forall acc r,
   parse_results ds acc = Some r ->
   exists parts, Forall2 (fun d p => parse_datum d = Some p) ds parts /\ r = acc ++ concat parts.
 Proof.
-  induction ds as [|d ds IH]; intros acc r H; cbn in H.
+  induction ds as [|d ds IH]; intros acc r H; cbn [parse_results] in H.
   - inversion H. subst. exists []. split; [constructor|]. cbn. rewrite app_nil_r. reflexivity.
-  - destruct (parse_datum d) as [x|] eqn:E; [|discriminate].
+  - (* the loop body regenerated from parseTestResults: parse, first error wins, collapse *)
+    unfold results_step in H.
+    destruct (parse_datum d) as [x|] eqn:E; [|discriminate].
     destruct (IH _ _ H) as [parts [F R]]. exists (x :: parts). split; [constructor; assumption|].
     unfold collapse in R. cbn. rewrite R, app_assoc. reflexivity.
 Qed.
@@ -281,9 +283,9 @@ Qed.
 Lemma parse_results_of_parts ds : forall parts acc,
   Forall2 (fun d p => parse_datum d = Some p) ds parts -> parse_results ds acc = Some (acc ++ concat parts).
 Proof.
-  induction ds as [|d ds IH]; intros parts acc F; inversion F as [|? p ? ps Hd Hr]; subst; cbn.
+  induction ds as [|d ds IH]; intros parts acc F; inversion F as [|? p ? ps Hd Hr]; subst; cbn [parse_results concat].
   - rewrite app_nil_r. reflexivity.
-  - rewrite Hd. rewrite (IH ps _ Hr). unfold collapse. rewrite app_assoc. reflexivity.
+  - unfold results_step. rewrite Hd. rewrite (IH ps _ Hr). unfold collapse. rewrite app_assoc. reflexivity.
 Qed.
 
 Lemma count_perm p (a b : suite) : Permutation a b -> count p a = count p b.
